@@ -9,6 +9,14 @@
 //! every callback, nobody else is asked; after silencing actions (stop all sounds / pause / remove /
 //! mute) the device buffer is exact zeros; under tweened volumes the output stays between the
 //! muted and the unmuted rendering.
+//! (3) Control scenes (second half of this file): pause / resume / resume_at (delayed, clock) with fades,
+//! volume and send-route volume tweens, handle calls made in the MIDDLE of a callback (from an effect on
+//! the main track, at a chosen chunk), compared bit for bit with the model's concrete control part
+//! (`C02/ModelCtl.v`, case `CCtl`: binary32 frames, decibel tweens, libm table) and checked against the
+//! property's clauses: a Paused / WaitingToResume branch is silent and frozen; a volume commanded while
+//! the track is paused is in force at the resume; a command written during a callback is not heard in it.
+//! (4) Removal histories (case `CKeep`): nested tracks, handles dropped in any order, persisting tracks:
+//! a branch is rendered exactly as long as something in it has a reason to stay.
 use crate::backend::*;
 use crate::util::*;
 use kira::effect::{Effect, EffectBuilder};
@@ -875,16 +883,1068 @@ fn pickup_order_scenarios(s: &mut Session) {
 	}
 }
 
+// =====================================================================================================
+// Control scenes: pause / resume / resume_at with fades, delayed and clock start times, volume and
+// route-volume tweens, commands written in the MIDDLE of a callback — through a real manager, compared bit
+// for bit with the buffer-level model instantiated with the concrete control part (C02/ModelCtl.v, case
+// `CCtl` of C02/Run.v), plus the property's own clauses as monitors:
+//  (A) a sub-track that is Paused / WaitingToResume for a whole callback asks nobody beneath it for a frame,
+//      and if every sound sits beneath such a track the device buffer is exact silence;
+//  (B) a volume / route volume commanded while the track is paused (tween elapsed before the resume) is in
+//      force from the first frame after the resume: same rendering as with an instant change;
+//  (C) a command written during a callback is not heard in that callback: same rendering as when it is
+//      written right after the callback;
+//  (D) (removal histories, case `CKeep`) a branch is rendered for as long as anything in it has a reason to
+//      stay — a live handle at any depth, a persisting track with a sound — and only that long.
+// =====================================================================================================
+use crate::inject::{shared_manager, SMgr, SharedRenderer};
+use kira::clock::{ClockHandle, ClockSpeed, ClockTime};
+use kira::track::TrackPlaybackState;
+
+/// a little under one frame at 48 kHz, in nanoseconds (nothing here needs to be dyadic: the model is bit-exact)
+const FRAME_NS: u64 = 20_833;
+
+type ChunkHooks = Arc<Mutex<Vec<(usize, Box<dyn FnOnce() + Send>)>>>;
+/// leaves the signal alone; sits on the main track (processed last in every chunk) and runs the caller's
+/// part after chunk number `at` of the current callback has been mixed
+struct ChunkHookFx {
+	hooks: ChunkHooks,
+	chunk: usize,
+}
+impl Effect for ChunkHookFx {
+	fn on_start_processing(&mut self) {
+		self.chunk = 0;
+	}
+	fn process(&mut self, _input: &mut [Frame], _dt: f64, _info: &Info) {
+		let due: Vec<Box<dyn FnOnce() + Send>> = {
+			let mut g = self.hooks.lock().unwrap();
+			let mut due = vec![];
+			let mut i = 0;
+			while i < g.len() {
+				if g[i].0 == self.chunk {
+					due.push(g.remove(i).1);
+				} else {
+					i += 1;
+				}
+			}
+			due
+		};
+		for h in due {
+			h();
+		}
+		self.chunk += 1;
+	}
+}
+struct ChunkHookBuilder(ChunkHooks);
+impl EffectBuilder for ChunkHookBuilder {
+	type Handle = ();
+	fn build(self) -> (Box<dyn Effect>, ()) {
+		(Box::new(ChunkHookFx { hooks: self.0, chunk: 0 }), ())
+	}
+}
+
+#[derive(Clone, Debug)]
+struct TSpec {
+	parent: Option<usize>,
+	vol: f32,
+	/// (send index, route volume)
+	routes: Vec<(usize, f32)>,
+	nsnd: usize,
+	fx: Vec<u64>,
+}
+#[derive(Clone, Debug)]
+struct SSpec {
+	vol: f32,
+	fx: Option<u64>,
+}
+#[derive(Clone, Debug)]
+struct CSpec {
+	b: usize,
+	ch: u16,
+	main_vol: f32,
+	main_fx: Option<u64>,
+	main_nsnd: usize,
+	sends: Vec<SSpec>,
+	tracks: Vec<TSpec>,
+	clock: bool,
+}
+#[derive(Clone, Debug, PartialEq)]
+enum CStart {
+	Imm,
+	Del(u64),
+	Clk,
+}
+#[derive(Clone, Debug, PartialEq)]
+struct CTw {
+	start: CStart,
+	dur_ns: u64,
+	ek: i128,
+	ep: i128,
+}
+/// tracks are named as in the model: 0 = main track, 1.. = sub-tracks in creation order, 100.. = send tracks
+#[derive(Clone, Debug, PartialEq)]
+enum CCmd {
+	Vol(usize, f32, CTw),
+	Route(usize, usize, f32, CTw),
+	Pause(usize, CTw),
+	Resume(usize, CStart, CTw),
+	ClockStart,
+	ClockDrop,
+}
+#[derive(Clone, Debug)]
+struct CCb {
+	/// written before the callback
+	pre: Vec<CCmd>,
+	/// written during the callback, after chunk number .0 has been mixed
+	mid: Vec<(usize, CCmd)>,
+	n: usize,
+}
+
+fn ctw_zero() -> CTw {
+	CTw { start: CStart::Imm, dur_ns: 0, ek: 0, ep: 0 }
+}
+fn cstart_term(s: &CStart) -> String {
+	match s {
+		CStart::Imm => "SImm".into(),
+		CStart::Del(ns) => format!("(SDel {ns})"),
+		CStart::Clk => format!("(SClk 0 0 {})", f64_bits_z(0.0)),
+	}
+}
+fn ctw_term(t: &CTw) -> String {
+	format!("({}, {}, {}, {})", cstart_term(&t.start), t.dur_ns, t.ek, z(t.ep))
+}
+fn ccmd_term(c: &CCmd) -> Option<String> {
+	Some(match c {
+		CCmd::Vol(tr, db, tw) => format!("KVol {} {} {}", tr, f32_bits_z(*db), ctw_term(tw)),
+		CCmd::Route(tr, r, db, tw) => format!("KRoute {} {} {} {}", tr, r, f32_bits_z(*db), ctw_term(tw)),
+		CCmd::Pause(tr, tw) => format!("KPause {} {}", tr, ctw_term(tw)),
+		CCmd::Resume(tr, st, tw) => format!("KResume {} {} {}", tr, cstart_term(st), ctw_term(tw)),
+		CCmd::ClockStart | CCmd::ClockDrop => return None,
+	})
+}
+fn ccmd_text(c: &CCmd) -> String {
+	let tw = |t: &CTw| format!("{:.2} frames{}{}", t.dur_ns as f64 / 20833.333, if t.ek == 0 { "" } else { " powi" }, match &t.start { CStart::Imm => "".to_string(), s => format!(" starting {s:?}") });
+	match c {
+		CCmd::Vol(tr, db, t) => format!("set_volume(track {tr}, {db} dB, {})", tw(t)),
+		CCmd::Route(tr, r, db, t) => format!("set_send(track {tr}, route {r}, {db} dB, {})", tw(t)),
+		CCmd::Pause(tr, t) => format!("pause(track {tr}, {})", tw(t)),
+		CCmd::Resume(tr, st, t) => format!("resume_at(track {tr}, {st:?}, {})", tw(t)),
+		CCmd::ClockStart => "clock.start()".into(),
+		CCmd::ClockDrop => "drop(clock)".into(),
+	}
+}
+fn script_text(spec: &CSpec, cbs: &[CCb]) -> String {
+	let mut o = format!(
+		"internal buffer {}, {} channels; main {} dB; sends {:?}; sub-tracks (1.. in order) {:?}; ",
+		spec.b,
+		spec.ch,
+		spec.main_vol,
+		spec.sends.iter().map(|s| s.vol).collect::<Vec<_>>(),
+		spec.tracks.iter().map(|t| format!("parent {:?} vol {} routes {:?} sounds {} fx {:?}", t.parent.map(|p| p + 1), t.vol, t.routes, t.nsnd, t.fx)).collect::<Vec<_>>()
+	);
+	for (k, cb) in cbs.iter().enumerate() {
+		let pre: Vec<String> = cb.pre.iter().map(ccmd_text).collect();
+		let mid: Vec<String> = cb.mid.iter().map(|(c, x)| format!("after chunk {c}: {}", ccmd_text(x))).collect();
+		o += &format!("| cb{k} [{}] {} frames [{}] ", pre.join("; "), cb.n, mid.join("; "));
+	}
+	o
+}
+
+fn easing_of(ek: i128, ep: i128) -> Easing {
+	match ek {
+		1 => Easing::InPowi(ep as i32),
+		2 => Easing::OutPowi(ep as i32),
+		_ => Easing::Linear,
+	}
+}
+fn tstate_code(s: TrackPlaybackState) -> i128 {
+	match s {
+		TrackPlaybackState::Playing => 0,
+		TrackPlaybackState::Pausing => 1,
+		TrackPlaybackState::Paused => 2,
+		TrackPlaybackState::WaitingToResume => 3,
+		TrackPlaybackState::Resuming => 4,
+	}
+}
+
+struct CRt {
+	mgr: SMgr,
+	tracks: Vec<Arc<Mutex<TrackHandle>>>,
+	sends: Vec<Arc<Mutex<SendTrackHandle>>>,
+	send_ids: Vec<SendTrackId>,
+	/// route lists as the model has them: sorted by send key
+	routes: Vec<Vec<usize>>,
+	clock: Mutex<Option<ClockHandle>>,
+	clock_id: Option<kira::clock::ClockId>,
+}
+impl CRt {
+	fn start(&self, s: &CStart) -> StartTime {
+		match s {
+			CStart::Imm => StartTime::Immediate,
+			CStart::Del(ns) => StartTime::Delayed(Duration::from_nanos(*ns)),
+			CStart::Clk => StartTime::ClockTime(ClockTime { clock: self.clock_id.unwrap(), ticks: 0, fraction: 0.0 }),
+		}
+	}
+	fn tween(&self, t: &CTw) -> Tween {
+		Tween { start_time: self.start(&t.start), duration: Duration::from_nanos(t.dur_ns), easing: easing_of(t.ek, t.ep) }
+	}
+	fn apply(&self, c: &CCmd) {
+		match c {
+			CCmd::Vol(tr, db, tw) => {
+				let t = self.tween(tw);
+				if *tr == 0 {
+					self.mgr.lock().unwrap().main_track().set_volume(Decibels(*db), t);
+				} else if *tr >= 100 {
+					self.sends[*tr - 100].lock().unwrap().set_volume(Decibels(*db), t);
+				} else {
+					self.tracks[*tr - 1].lock().unwrap().set_volume(Decibels(*db), t);
+				}
+			}
+			CCmd::Route(tr, r, db, tw) => {
+				let id = self.send_ids[self.routes[*tr - 1][*r]];
+				self.tracks[*tr - 1].lock().unwrap().set_send(id, Decibels(*db), self.tween(tw)).unwrap();
+			}
+			CCmd::Pause(tr, tw) => self.tracks[*tr - 1].lock().unwrap().pause(self.tween(tw)),
+			CCmd::Resume(tr, st, tw) => self.tracks[*tr - 1].lock().unwrap().resume_at(self.start(st), self.tween(tw)),
+			CCmd::ClockStart => {
+				if let Some(c) = self.clock.lock().unwrap().as_mut() {
+					c.start();
+				}
+			}
+			CCmd::ClockDrop => {
+				self.clock.lock().unwrap().take();
+			}
+		}
+	}
+}
+
+#[derive(Default)]
+struct CTrace {
+	outs: Vec<Vec<f32>>,
+	/// handle states of the sub-tracks (creation order) before / after every callback
+	before: Vec<Vec<i128>>,
+	after: Vec<Vec<i128>>,
+	/// per callback, per sub-track (creation order): did any probe directly on that track get a call
+	asked: Vec<Vec<bool>>,
+	/// logs since the snapshot, in the model's traversal order
+	logs: Vec<Vec<usize>>,
+	tab: Vec<(u32, u32, u32)>,
+	term: String,
+	obs: Vec<i128>,
+	hooks_left: usize,
+	failed: Option<String>,
+}
+
+/// arena order: most recently inserted first
+fn children_of(spec: &CSpec, parent: Option<usize>) -> Vec<usize> {
+	let mut v: Vec<usize> = (0..spec.tracks.len()).filter(|i| spec.tracks[*i].parent == parent).collect();
+	v.reverse();
+	v
+}
+fn traversal(spec: &CSpec) -> Vec<usize> {
+	fn go(spec: &CSpec, p: Option<usize>, o: &mut Vec<usize>) {
+		for c in children_of(spec, p) {
+			o.push(c);
+			go(spec, Some(c), o);
+		}
+	}
+	let mut o = vec![];
+	go(spec, None, &mut o);
+	o
+}
+
+/// `defer_mid`: write the mid-callback commands right AFTER their callback instead (the reference of monitor C)
+fn run_ctl(spec: &CSpec, cbs: &[CCb], defer_mid: bool) -> CTrace {
+	let mut tr = CTrace::default();
+	let _ = kira::verif::take_powf32_log();
+	let hooks: ChunkHooks = Arc::default();
+	let mut main = MainTrackBuilder::new().volume(Decibels(spec.main_vol)).with_effect(ChunkHookBuilder(hooks.clone()));
+	let mut main_fx: Vec<PFx> = vec![];
+	if let Some(k) = spec.main_fx {
+		let log: Log = Arc::default();
+		let bad = Arc::new(AtomicBool::new(false));
+		main.add_effect(FxBuilder(FxProbe { k, pos: 0, log: log.clone(), bad_dt: bad.clone() }));
+		main_fx.push(PFx { k, log, bad_dt: bad, mark: 0 });
+	}
+	let (mgr, renderer): (SMgr, SharedRenderer) = shared_manager(SR, spec.b, main);
+	let mk_fx = |k: u64| {
+		let log: Log = Arc::default();
+		let bad = Arc::new(AtomicBool::new(false));
+		(FxBuilder(FxProbe { k, pos: 0, log: log.clone(), bad_dt: bad.clone() }), PFx { k, log, bad_dt: bad, mark: 0 })
+	};
+	let mut next_snd = 0u64;
+	let mut mk_snd = || {
+		next_snd += 1;
+		let id = 1 + (next_snd - 1) % 12;
+		let log: Log = Arc::default();
+		let stop = Arc::new(AtomicBool::new(false));
+		let dirty = Arc::new(AtomicBool::new(false));
+		(SndData(SndProbe { id, pos: 0, log: log.clone(), stop: stop.clone(), dirty: dirty.clone() }), PSnd { id, log, stop, dirty, mark: 0, ins: true })
+	};
+	// sends
+	let mut sends = vec![];
+	let mut send_ids = vec![];
+	let mut send_fx: Vec<Vec<PFx>> = vec![];
+	for sp in &spec.sends {
+		let mut bld = SendTrackBuilder::new().volume(Decibels(sp.vol));
+		let mut fx = vec![];
+		if let Some(k) = sp.fx {
+			let (f, p) = mk_fx(k);
+			bld.add_effect(f);
+			fx.push(p);
+		}
+		let h = mgr.lock().unwrap().add_send_track(bld).unwrap();
+		send_ids.push(h.id());
+		sends.push(Arc::new(Mutex::new(h)));
+		send_fx.push(fx);
+	}
+	// the clock (picked up by the warm-up callback, stopped)
+	let clock = if spec.clock { Some(mgr.lock().unwrap().add_clock(ClockSpeed::TicksPerSecond(1000.0)).unwrap()) } else { None };
+	let clock_id = clock.as_ref().map(|c| c.id());
+	// sub-tracks
+	let mut tracks: Vec<Arc<Mutex<TrackHandle>>> = vec![];
+	let mut t_snds: Vec<Vec<PSnd>> = vec![];
+	let mut t_fx: Vec<Vec<PFx>> = vec![];
+	let mut routes_sorted: Vec<Vec<usize>> = vec![];
+	for ts in &spec.tracks {
+		let mut bld = TrackBuilder::new().volume(Decibels(ts.vol));
+		let mut fx = vec![];
+		for k in &ts.fx {
+			let (f, p) = mk_fx(*k);
+			bld.add_effect(f);
+			fx.push(p);
+		}
+		let mut rs: Vec<usize> = ts.routes.iter().map(|r| r.0).collect();
+		rs.sort();
+		for (si, db) in &ts.routes {
+			bld = bld.with_send(send_ids[*si], Decibels(*db));
+		}
+		let mut h = match ts.parent {
+			None => mgr.lock().unwrap().add_sub_track(bld).unwrap(),
+			Some(p) => tracks[p].lock().unwrap().add_sub_track(bld).unwrap(),
+		};
+		let mut snds = vec![];
+		for _ in 0..ts.nsnd {
+			let (d, p) = mk_snd();
+			h.play(d).unwrap();
+			snds.insert(0, p);
+		}
+		tracks.push(Arc::new(Mutex::new(h)));
+		t_snds.push(snds);
+		t_fx.push(fx);
+		routes_sorted.push(rs);
+	}
+	let mut main_snds = vec![];
+	for _ in 0..spec.main_nsnd {
+		let (d, p) = mk_snd();
+		mgr.lock().unwrap().play(d).unwrap();
+		main_snds.insert(0, p);
+	}
+	let rt = Arc::new(CRt { mgr: mgr.clone(), tracks: tracks.clone(), sends: sends.clone(), send_ids: send_ids.clone(), routes: routes_sorted.clone(), clock: Mutex::new(clock), clock_id });
+	// warm-up: everything is picked up; one frame
+	let _ = crate::inject::callback(&renderer, 1, spec.ch);
+	// ---- snapshot (marks) and scene term
+	let order = traversal(spec);
+	let snd_t = |v: &mut Vec<PSnd>| {
+		let mut o = vec![];
+		for p in v.iter_mut() {
+			p.mark = len(&p.log);
+			o.push(format!("({}, {})", p.id, sum(&p.log, p.mark)));
+		}
+		format!("[{}]", o.join("; "))
+	};
+	let fx_t = |v: &mut Vec<PFx>| {
+		let mut o = vec![];
+		for p in v.iter_mut() {
+			p.mark = len(&p.log);
+			o.push(format!("({}, {})", p.k, sum(&p.log, p.mark)));
+		}
+		format!("[{}]", o.join("; "))
+	};
+	fn node_term(spec: &CSpec, i: usize, snds: &[String], fxs: &[String], rs: &[Vec<usize>]) -> String {
+		let ts = &spec.tracks[i];
+		let routes: Vec<String> = rs[i].iter().map(|si| format!("({}, {})", si, f32_bits_z(ts.routes.iter().find(|r| r.0 == *si).unwrap().1))).collect();
+		let subs: Vec<String> = children_of(spec, Some(i)).into_iter().map(|c| node_term(spec, c, snds, fxs, rs)).collect();
+		format!("RCN {} {} [{}] {} {} [{}]", i + 1, f32_bits_z(ts.vol), routes.join("; "), snds[i], fxs[i], subs.join("; "))
+	}
+	let snd_terms: Vec<String> = t_snds.iter_mut().map(|v| snd_t(v)).collect();
+	let fx_terms: Vec<String> = t_fx.iter_mut().map(|v| fx_t(v)).collect();
+	let main_term = format!("(RCN 0 {} [] {} {} [])", f32_bits_z(spec.main_vol), snd_t(&mut main_snds), fx_t(&mut main_fx));
+	let mut send_terms = vec![];
+	for j in (0..spec.sends.len()).rev() {
+		send_terms.push(format!("({}, RCN {} {} [] [] {} [])", j, 100 + j, f32_bits_z(spec.sends[j].vol), fx_t(&mut send_fx[j])));
+	}
+	let sub_terms: Vec<String> = children_of(spec, None).into_iter().map(|c| format!("({})", node_term(spec, c, &snd_terms, &fx_terms, &routes_sorted))).collect();
+	// ---- the history
+	let states = |tracks: &Vec<Arc<Mutex<TrackHandle>>>| -> Vec<i128> { tracks.iter().map(|t| tstate_code(t.lock().unwrap().state())).collect() };
+	let mut clock_present = spec.clock;
+	let mut clock_ticking = false;
+	let mut cb_terms = vec![];
+	let mut carried: Vec<CCmd> = vec![];
+	for (k, cb) in cbs.iter().enumerate() {
+		let mut cmds: Vec<CCmd> = std::mem::take(&mut carried);
+		for c in &cb.pre {
+			rt.apply(c);
+			cmds.push(c.clone());
+		}
+		for c in &cmds {
+			match c {
+				CCmd::ClockStart => clock_ticking = clock_present,
+				CCmd::ClockDrop => clock_present = false,
+				_ => {}
+			}
+		}
+		let last = k + 1 == cbs.len();
+		if !defer_mid {
+			for (at, c) in &cb.mid {
+				let rt2 = rt.clone();
+				let c2 = c.clone();
+				hooks.lock().unwrap().push((*at, Box::new(move || rt2.apply(&c2))));
+			}
+		}
+		tr.before.push(states(&tracks));
+		let marks: Vec<usize> = (0..tracks.len()).map(|i| t_snds[i].iter().map(|p| len(&p.log)).sum::<usize>() + t_fx[i].iter().map(|p| len(&p.log)).sum::<usize>()).collect();
+		let out = crate::inject::callback(&renderer, cb.n, spec.ch);
+		tr.after.push(states(&tracks));
+		tr.asked.push((0..tracks.len()).map(|i| t_snds[i].iter().map(|p| len(&p.log)).sum::<usize>() + t_fx[i].iter().map(|p| len(&p.log)).sum::<usize>() != marks[i]).collect());
+		if defer_mid {
+			for (_, c) in &cb.mid {
+				rt.apply(c);
+			}
+		}
+		if !last {
+			carried = cb.mid.iter().map(|x| x.1.clone()).collect();
+		}
+		tr.hooks_left += hooks.lock().unwrap().len();
+		hooks.lock().unwrap().clear();
+		let info = if spec.clock { format!("({}, {}, 0, {})", clock_present as u8, (clock_present && clock_ticking) as u8, f64_bits_z(0.0)) } else { String::new() };
+		cb_terms.push(format!("RCCb [{}] {} [{}]", cmds.iter().filter_map(ccmd_term).collect::<Vec<_>>().join("; "), cb.n, info));
+		tr.obs.extend(out.iter().map(|x| obs32(*x)));
+		for i in &order {
+			tr.obs.push(tr.after[k][*i]);
+		}
+		tr.outs.push(out);
+	}
+	// ---- logs, in the order of enc_cmixer
+	let since = |log: &Log, mark: usize| log.lock().unwrap()[mark..].to_vec();
+	for p in &main_snds {
+		tr.logs.push(since(&p.log, p.mark));
+	}
+	for p in &main_fx {
+		tr.logs.push(since(&p.log, p.mark));
+	}
+	for i in &order {
+		for p in &t_snds[*i] {
+			tr.logs.push(since(&p.log, p.mark));
+		}
+		for p in &t_fx[*i] {
+			tr.logs.push(since(&p.log, p.mark));
+		}
+		// (children follow in `order`: pre-order)
+	}
+	for j in (0..spec.sends.len()).rev() {
+		for p in &send_fx[j] {
+			tr.logs.push(since(&p.log, p.mark));
+		}
+	}
+	for p in main_snds.iter().chain(t_snds.iter().flatten()) {
+		if p.dirty.load(Ordering::SeqCst) && tr.failed.is_none() {
+			tr.failed = Some(format!("probe sound {} was handed a buffer that was not all zeros", p.id));
+		}
+	}
+	tr.tab = kira::verif::take_powf32_log();
+	tr.tab.sort();
+	tr.tab.dedup();
+	let mut obs = vec![0];
+	obs.extend(tr.obs.iter().copied());
+	for l in &tr.logs {
+		obs.push(l.len() as i128);
+		obs.extend(l.iter().map(|x| *x as i128));
+	}
+	tr.obs = obs;
+	tr.term = format!(
+		"CCtl {} {} {} {} [{}] [{}] [{}] [{}]",
+		spec.b,
+		spec.ch,
+		f64_bits_z(1.0 / SR as f64),
+		main_term,
+		send_terms.join("; "),
+		sub_terms.join("; "),
+		cb_terms.join("; "),
+		tr.tab.iter().map(|(a, b, c)| format!("({}, {}, {})", a, b, c)).collect::<Vec<_>>().join("; ")
+	);
+	tr
+}
+
+fn subtree(spec: &CSpec, i: usize) -> Vec<usize> {
+	let mut v = vec![i];
+	let mut k = 0;
+	while k < v.len() {
+		let p = v[k];
+		v.extend((0..spec.tracks.len()).filter(|c| spec.tracks[*c].parent == Some(p)));
+		k += 1;
+	}
+	v
+}
+/// monitor (A): "a paused branch contributes exact silence", WaitingToResume included, and nobody beneath it is asked
+fn monitor_quiet(s: &mut Session, spec: &CSpec, cbs: &[CCb], tr: &CTrace) {
+	let desc = || script_text(spec, cbs);
+	let quiet_code = |c: i128| c == 2 || c == 3;
+	for k in 0..tr.outs.len() {
+		// pause / resume commands that this callback's on_start_processing reads
+		let mut touched: Vec<usize> = vec![];
+		let mut note = |c: &CCmd| match c {
+			CCmd::Pause(t, _) | CCmd::Resume(t, _, _) => touched.push(*t - 1),
+			_ => {}
+		};
+		cbs[k].pre.iter().for_each(&mut note);
+		if k > 0 {
+			cbs[k - 1].mid.iter().for_each(|x| note(&x.1));
+		}
+		let quiet: Vec<bool> = (0..spec.tracks.len()).map(|i| quiet_code(tr.before[k][i]) && quiet_code(tr.after[k][i]) && !touched.contains(&i)).collect();
+		let mut covered = vec![false; spec.tracks.len()];
+		for i in 0..spec.tracks.len() {
+			if quiet[i] {
+				for j in subtree(spec, i) {
+					covered[j] = true;
+					if tr.asked[k][j] {
+						s.fail(
+							desc(),
+							format!("callback {k}: sub-track {} is {} before and after it (no pause / resume command in between), yet a sound or effect on track {} beneath it was asked for frames", i + 1, if tr.after[k][i] == 3 { "WaitingToResume" } else { "Paused" }, j + 1),
+							None,
+						);
+						return;
+					}
+				}
+			}
+		}
+		let all_covered = spec.main_nsnd == 0 && (0..spec.tracks.len()).all(|i| spec.tracks[i].nsnd == 0 || covered[i]);
+		let silent_fx = spec.main_fx.unwrap_or(0) == 0 && spec.sends.iter().all(|x| x.fx.unwrap_or(0) == 0) && (0..spec.tracks.len()).all(|i| covered[i] || spec.tracks[i].fx.iter().all(|k| *k == 0));
+		if all_covered && silent_fx {
+			if let Some(p) = tr.outs[k].iter().position(|x| *x != 0.0) {
+				s.fail(desc(), format!("callback {k}: every sound sits beneath a track that is Paused / WaitingToResume for the whole callback, yet device sample {p} is {:?}", tr.outs[k][p]), None);
+				return;
+			}
+		}
+	}
+}
+
+fn gen_ctw(r: &mut Rng, allow_delay: bool) -> CTw {
+	let dur_ns = match r.below(5) {
+		0 | 1 => 0,
+		2 => r.range(1, 6) as u64 * FRAME_NS + r.below(3000),
+		3 => r.range(4, 24) as u64 * FRAME_NS + r.below(3000),
+		_ => r.below(10 * FRAME_NS) + 1,
+	};
+	let (ek, ep) = match r.below(6) {
+		0 => (1, 2),
+		1 => (2, 2),
+		_ => (0, 0),
+	};
+	let start = if allow_delay && r.chance(1, 8) { CStart::Del(r.range(1, 8) as u64 * FRAME_NS) } else { CStart::Imm };
+	CTw { start, dur_ns, ek, ep }
+}
+fn gen_db(r: &mut Rng) -> f32 {
+	*r.pick(&[0.0f32, 0.0, -60.0, -6.0, -12.5, -30.0, 3.0, -70.0])
+}
+fn gen_spec(r: &mut Rng) -> CSpec {
+	let b = *r.pick(&[1usize, 2, 3, 4, 4, 8]);
+	let nsends = r.below(3) as usize;
+	let sends: Vec<SSpec> = (0..nsends).map(|_| SSpec { vol: *r.pick(&[0.0f32, 0.0, -6.0]), fx: if r.chance(1, 3) { Some(r.below(3)) } else { None } }).collect();
+	let nt = r.range(1, 3) as usize;
+	let mut tracks: Vec<TSpec> = vec![];
+	let mut total_snd = 0;
+	for i in 0..nt {
+		let parent = if i == 0 || r.chance(1, 2) { None } else { Some(r.below(i as u64) as usize) };
+		let mut routes = vec![];
+		for j in 0..nsends {
+			if r.chance(1, 2) {
+				routes.push((j, *r.pick(&[0.0f32, 0.0, -6.0, -60.0])));
+			}
+		}
+		let nsnd = if total_snd >= 3 { 0 } else { r.below(3) as usize };
+		total_snd += nsnd;
+		let fx = if r.chance(1, 4) { vec![r.below(3)] } else { vec![] };
+		tracks.push(TSpec { parent, vol: *r.pick(&[0.0f32, 0.0, 0.0, -6.0, -60.0]), routes, nsnd, fx });
+	}
+	if total_snd == 0 {
+		tracks[nt - 1].nsnd = 1;
+	}
+	CSpec { b, ch: *r.pick(&[2u16, 2, 2, 1, 3]), main_vol: *r.pick(&[0.0f32, 0.0, -6.0]), main_fx: if r.chance(1, 4) { Some(r.below(3)) } else { None }, main_nsnd: if r.chance(1, 5) { 1 } else { 0 }, sends, tracks, clock: r.chance(1, 3) }
+}
+fn gen_cmd(r: &mut Rng, spec: &CSpec) -> CCmd {
+	let nt = spec.tracks.len();
+	let t = 1 + r.below(nt as u64) as usize;
+	match r.below(12) {
+		0 | 1 | 2 => CCmd::Pause(t, gen_ctw(r, true)),
+		3 | 4 | 5 => {
+			let st = match r.below(6) {
+				0 | 1 => CStart::Imm,
+				5 if spec.clock => CStart::Clk,
+				_ => CStart::Del(r.range(1, 30) as u64 * FRAME_NS + r.below(2) * 7000),
+			};
+			CCmd::Resume(t, st, gen_ctw(r, false))
+		}
+		6 | 7 => {
+			let who = match r.below(4) {
+				0 => 0,
+				1 if !spec.sends.is_empty() => 100 + r.below(spec.sends.len() as u64) as usize,
+				_ => t,
+			};
+			CCmd::Vol(who, gen_db(r), gen_ctw(r, true))
+		}
+		8 | 9 => {
+			let with: Vec<usize> = (0..nt).filter(|i| !spec.tracks[*i].routes.is_empty()).collect();
+			if with.is_empty() {
+				CCmd::Vol(t, gen_db(r), gen_ctw(r, true))
+			} else {
+				let i = *r.pick(&with);
+				CCmd::Route(i + 1, r.below(spec.tracks[i].routes.len() as u64) as usize, gen_db(r), gen_ctw(r, true))
+			}
+		}
+		10 if spec.clock => CCmd::ClockStart,
+		11 if spec.clock && r.chance(1, 3) => CCmd::ClockDrop,
+		_ => CCmd::Pause(t, ctw_zero()),
+	}
+}
+fn gen_history(r: &mut Rng, spec: &CSpec) -> Vec<CCb> {
+	let ncb = r.range(4, 8) as usize;
+	let mut cbs = vec![];
+	for k in 0..ncb {
+		let n = match r.below(5) {
+			0 => 1,
+			1 => spec.b,
+			2 => 2 * spec.b,
+			3 => spec.b + 1 + r.below(spec.b as u64) as usize,
+			_ => r.below(3 * spec.b as u64) as usize + 1,
+		}
+		.min(10);
+		let mut cb = CCb { pre: vec![], mid: vec![], n };
+		if r.chance(3, 5) {
+			for _ in 0..r.range(1, 2) {
+				let c = gen_cmd(r, spec);
+				let chunks = chunk_sizes(spec.b, n).len();
+				if k + 1 < ncb && chunks >= 2 && r.chance(1, 3) {
+					cb.mid.push((r.below(chunks as u64 - 1) as usize, c));
+				} else {
+					cb.pre.push(c);
+				}
+			}
+		}
+		cbs.push(cb);
+	}
+	cbs
+}
+/// the "waiting" family: pause (instant or fading), then resume_at with a delay (possibly while the fade-out is
+/// still running) or on the clock; the callbacks in between must be silent and frozen
+fn gen_wait_history(r: &mut Rng, spec: &CSpec) -> Vec<CCb> {
+	let n = *r.pick(&[spec.b, 2 * spec.b, spec.b + 1]).min(&8);
+	let t = 1 + r.below(spec.tracks.len() as u64) as usize;
+	let fade = if r.chance(1, 2) { 0 } else { r.range(6, 30) as u64 * FRAME_NS };
+	let wait_frames = r.range(2 * n as i64, 6 * n as i64) as u64;
+	let st = if spec.clock && r.chance(1, 4) { CStart::Clk } else { CStart::Del(wait_frames * FRAME_NS) };
+	let mut cbs = vec![CCb { pre: vec![], mid: vec![], n }];
+	cbs.push(CCb { pre: vec![CCmd::Pause(t, CTw { start: CStart::Imm, dur_ns: fade, ek: 0, ep: 0 })], mid: vec![], n });
+	if r.chance(1, 2) {
+		cbs.push(CCb { pre: vec![], mid: vec![], n });
+	}
+	cbs.push(CCb { pre: vec![CCmd::Resume(t, st.clone(), CTw { start: CStart::Imm, dur_ns: if r.chance(1, 2) { 0 } else { r.range(1, 8) as u64 * FRAME_NS }, ek: 0, ep: 0 })], mid: vec![], n });
+	for k in 0..7 {
+		let mut cb = CCb { pre: vec![], mid: vec![], n };
+		if st == CStart::Clk && k == 3 {
+			cb.pre.push(CCmd::ClockStart);
+		}
+		cbs.push(cb);
+	}
+	cbs
+}
+
+/// the "mid-callback" family: one track with a sound, routed to a send; every callback spans several internal
+/// chunks and the handles are used while it is being rendered
+fn gen_mid_script(r: &mut Rng) -> (CSpec, Vec<CCb>) {
+	let b = *r.pick(&[1usize, 2, 4]);
+	let mut tracks = vec![TSpec { parent: None, vol: 0.0, routes: vec![(0, *r.pick(&[0.0f32, 0.0, -60.0]))], nsnd: 1, fx: vec![] }];
+	if r.chance(1, 3) {
+		tracks.push(TSpec { parent: Some(0), vol: 0.0, routes: if r.chance(1, 2) { vec![(0, 0.0)] } else { vec![] }, nsnd: 1, fx: vec![] });
+	}
+	let spec = CSpec { b, ch: 2, main_vol: 0.0, main_fx: None, main_nsnd: 0, sends: vec![SSpec { vol: 0.0, fx: None }], tracks, clock: false };
+	let ncb = r.range(3, 6) as usize;
+	let mut cbs = vec![];
+	let mut route_db = spec.tracks[0].routes[0].1;
+	for k in 0..ncb {
+		let chunks = r.range(2, 4) as usize;
+		let n = (chunks * b).min(10);
+		let chunks = chunk_sizes(b, n).len();
+		let mut cb = CCb { pre: vec![], mid: vec![], n };
+		if k + 1 < ncb && chunks >= 2 {
+			for _ in 0..r.range(1, 2) {
+				let at = r.below(chunks as u64 - 1) as usize;
+				let tw = if r.chance(2, 3) { ctw_zero() } else { CTw { start: CStart::Imm, dur_ns: r.range(1, 6) as u64 * FRAME_NS, ek: 0, ep: 0 } };
+				let c = match r.below(8) {
+					0 | 1 | 2 | 3 => {
+						route_db = if route_db == 0.0 { *r.pick(&[-60.0f32, -60.0, -6.0]) } else { 0.0 };
+						CCmd::Route(1, 0, route_db, tw)
+					}
+					4 => CCmd::Vol(*r.pick(&[0usize, 1, 100]), *r.pick(&[-60.0f32, 0.0, -6.0]), tw),
+					5 => CCmd::Pause(1, tw),
+					6 => CCmd::Resume(1, CStart::Imm, tw),
+					_ => CCmd::Route(1, 0, *r.pick(&[-60.0f32, 0.0]), tw),
+				};
+				cb.mid.push((at, c));
+			}
+			cb.mid.sort_by_key(|x| x.0);
+		}
+		cbs.push(cb);
+	}
+	(spec, cbs)
+}
+
+fn key_of(t: &str) -> String {
+	hash_key(t)
+}
+
+fn ctl_scenarios(s: &mut Session, rng: &mut Rng, count: u64) {
+	// ---- random histories and the waiting family: model cases + monitors A and C
+	s.flush();
+	for i in 0..count {
+		let mut r = rng.fork();
+		let mut spec = gen_spec(&mut r);
+		let wait = i % 4 == 2;
+		let midf = i % 4 == 3;
+		if wait {
+			spec.main_nsnd = 0;
+		}
+		let cbs = if wait {
+			gen_wait_history(&mut r, &spec)
+		} else if midf {
+			let (sp, cbs) = gen_mid_script(&mut r);
+			spec = sp;
+			cbs
+		} else {
+			gen_history(&mut r, &spec)
+		};
+		let tr = run_ctl(&spec, &cbs, false);
+		let nontrivial = cbs.iter().any(|c| !c.pre.is_empty() || !c.mid.is_empty());
+		s.case(if wait { "ctl_waiting" } else if midf { "ctl_mid_callback" } else { "ctl_history" }, tr.term.clone(), &tr.obs, if nontrivial { Some(key_of(&tr.term)) } else { None });
+		if i % 12 == 11 {
+			s.flush(); // a control case costs ~0.3 s of vm_compute: small shards, evaluated in parallel
+		}
+		for st in tr.after.iter().flatten() {
+			s.count(&format!("track_state_{st}"));
+		}
+		if let Some(e) = &tr.failed {
+			s.fail(script_text(&spec, &cbs), e.clone(), None);
+		}
+		if tr.hooks_left > 0 {
+			s.fail(script_text(&spec, &cbs), "harness: a mid-callback hook did not run".into(), None);
+		}
+		monitor_quiet(s, &spec, &cbs, &tr);
+		if cbs.iter().any(|c| !c.mid.is_empty()) {
+			let rf = run_ctl(&spec, &cbs, true);
+			s.eval_only("mid_callback_twin");
+			'cmp: for k in 0..tr.outs.len() {
+				for (j, (a, b)) in tr.outs[k].iter().zip(rf.outs[k].iter()).enumerate() {
+					if a.to_bits() != b.to_bits() {
+						let which: Vec<String> = cbs.iter().enumerate().flat_map(|(q, c)| c.mid.iter().map(move |(at, x)| format!("{} after chunk {at} of callback {q}", ccmd_text(x)))).collect();
+						s.fail(
+							script_text(&spec, &cbs),
+							format!("commands written during a callback ({}) must wait for the next callback: callback {k}, device sample {j} is {a:?}; with the same commands written right after their callback it is {b:?}", which.join("; ")),
+							None,
+						);
+						break 'cmp;
+					}
+				}
+			}
+		}
+	}
+	// ---- monitor B: a volume / route volume commanded while the track is paused (or waiting) is in force at the resume
+	for i in 0..count {
+		let mut r = rng.fork();
+		let b = *r.pick(&[2usize, 4, 8]);
+		let n = *r.pick(&[b, 2 * b, b + 1]);
+		let child = r.chance(1, 3);
+		let mut tracks = vec![TSpec { parent: None, vol: 0.0, routes: vec![(0, 0.0)], nsnd: 1, fx: vec![] }];
+		if child {
+			tracks.push(TSpec { parent: Some(0), vol: 0.0, routes: vec![], nsnd: 1, fx: vec![] });
+		}
+		let kind = i % 4; // 0 mute the track, 1 unmute it, 2 close the route, 3 open it
+		match kind {
+			1 => tracks[0].vol = -60.0,
+			3 => tracks[0].routes[0].1 = -60.0,
+			_ => {}
+		}
+		let spec = CSpec { b, ch: 2, main_vol: 0.0, main_fx: None, main_nsnd: 0, sends: vec![SSpec { vol: 0.0, fx: None }], tracks, clock: false };
+		let dur_frames = r.range(3 * b as i64, 8 * b as i64) as u64;
+		let waiting = r.chance(1, 3);
+		let target = match kind {
+			0 | 2 => -60.0,
+			_ => *r.pick(&[0.0f32, -6.0]),
+		};
+		let paused_cbs = (dur_frames as usize + n - 1) / n + 2;
+		let mk = |dur_ns: u64| -> Vec<CCb> {
+			let tw = CTw { start: CStart::Imm, dur_ns, ek: 0, ep: 0 };
+			let cmd = if kind < 2 { CCmd::Vol(1, target, tw) } else { CCmd::Route(1, 0, target, tw) };
+			let mut cbs = vec![CCb { pre: vec![], mid: vec![], n }];
+			let mut first = vec![CCmd::Pause(1, ctw_zero())];
+			if waiting {
+				first.push(CCmd::Resume(1, CStart::Del((paused_cbs as u64 + 2) * n as u64 * FRAME_NS), ctw_zero()));
+			}
+			cbs.push(CCb { pre: first, mid: vec![], n });
+			cbs.push(CCb { pre: vec![cmd], mid: vec![], n });
+			for _ in 0..paused_cbs {
+				cbs.push(CCb { pre: vec![], mid: vec![], n });
+			}
+			cbs.push(CCb { pre: if waiting { vec![] } else { vec![CCmd::Resume(1, CStart::Imm, ctw_zero())] }, mid: vec![], n });
+			for _ in 0..5 {
+				cbs.push(CCb { pre: vec![], mid: vec![], n });
+			}
+			cbs
+		};
+		let test = mk(dur_frames * FRAME_NS);
+		let reference = mk(0);
+		let a = run_ctl(&spec, &test, false);
+		let rf = run_ctl(&spec, &reference, false);
+		s.eval_only("volume_while_paused_twin");
+		let from = 3 + paused_cbs;
+		let what = match kind {
+			0 => "track muted",
+			1 => "track unmuted",
+			2 => "send route closed",
+			_ => "send route opened",
+		};
+		let heard = a.outs[from..].iter().flatten().any(|x| *x != 0.0);
+		if kind != 0 && !heard {
+			s.fail(script_text(&spec, &test), format!("{what} while paused: nothing at all is heard after the resume"), None);
+		}
+		'cmpb: for k in from..a.outs.len() {
+			for (j, (x, y)) in a.outs[k].iter().zip(rf.outs[k].iter()).enumerate() {
+				if x.to_bits() != y.to_bits() {
+					s.fail(
+						script_text(&spec, &test),
+						format!("{what} with a tween of {dur_frames} frames while the track was {} ({} frames went by before it resumed): the commanded volume must be in force at the resume; callback {k}, device sample {j} is {x:?}, with an instant change at the same point it is {y:?}", if waiting { "WaitingToResume" } else { "Paused" }, paused_cbs * n),
+						None,
+					);
+					break 'cmpb;
+				}
+			}
+		}
+		// (every third test run is also a model case)
+		if i % 3 == 0 {
+			s.case("ctl_volume_while_paused", a.term.clone(), &a.obs, Some(key_of(&a.term)));
+		}
+		if i % 36 == 35 {
+			s.flush();
+		}
+		monitor_quiet(s, &spec, &test, &a);
+	}
+}
+
+// ---------------------------------------------------------------- removal histories (monitor D, case CKeep)
+#[derive(Clone, Debug)]
+enum KOp {
+	Add(usize, usize, bool),
+	Play(usize),
+	Drop(usize),
+}
+struct KNode {
+	parent: usize,
+	persist: bool,
+	h: Option<TrackHandle>,
+	snds: Vec<Log>,
+	/// still in the mixer as far as the documented rules go
+	present: bool,
+}
+fn keep_scenarios(s: &mut Session, rng: &mut Rng, count: u64) {
+	for i in 0..count {
+		let mut r = rng.fork();
+		let b = *r.pick(&[1usize, 4]);
+		let mut mgr = manager(SR, b, Capacities::default(), MainTrackBuilder::new());
+		// node 0 is the mixer
+		let mut nodes: Vec<KNode> = vec![KNode { parent: 0, persist: false, h: None, snds: vec![], present: true }];
+		let mut rounds: Vec<Vec<KOp>> = vec![];
+		let mut obs: Vec<i128> = vec![];
+		let mut failure: Option<String> = None;
+		let nrounds = r.range(4, 9) as usize;
+		let scripted = i % 3; // 0: random; 1: chain, handles dropped top-down, grandchild alive; 2: persisting child with a sound
+		for round in 0..nrounds {
+			let mut ops: Vec<KOp> = vec![];
+			if scripted == 1 && round < 3 {
+				match round {
+					0 => {
+						ops.push(KOp::Add(0, 1, false));
+						ops.push(KOp::Add(1, 2, false));
+						if r.chance(1, 2) {
+							ops.push(KOp::Add(2, 3, false));
+							ops.push(KOp::Play(3));
+						}
+					}
+					1 => {
+						if nodes.len() < 4 {
+							// the grandchild is still queued when both ancestors' handles go
+							ops.push(KOp::Add(2, 3, false));
+							ops.push(KOp::Play(3));
+						}
+						if r.chance(1, 2) {
+							ops.push(KOp::Drop(1));
+							ops.push(KOp::Drop(2));
+						} else {
+							ops.push(KOp::Drop(2));
+							ops.push(KOp::Drop(1));
+						}
+					}
+					_ => {}
+				}
+			} else if scripted == 2 && round < 2 {
+				match round {
+					0 => {
+						ops.push(KOp::Add(0, 1, false));
+						ops.push(KOp::Add(1, 2, true));
+						ops.push(KOp::Play(2));
+					}
+					_ => {
+						ops.push(KOp::Drop(2));
+						ops.push(KOp::Drop(1));
+					}
+				}
+			} else {
+				for _ in 0..r.below(4) {
+					let held: Vec<usize> = (1..nodes.len()).filter(|j| nodes[*j].h.is_some()).collect();
+					match r.below(6) {
+						0 | 1 if nodes.len() < 9 => {
+							let parent = if held.is_empty() || r.chance(1, 3) { 0 } else { *r.pick(&held) };
+							ops.push(KOp::Add(parent, nodes.len() + ops.iter().filter(|o| matches!(o, KOp::Add(..))).count(), r.chance(1, 4)));
+						}
+						2 if !held.is_empty() => ops.push(KOp::Play(*r.pick(&held))),
+						3 | 4 if !held.is_empty() => {
+							let t = *r.pick(&held);
+							if !ops.iter().any(|o| matches!(o, KOp::Drop(x) | KOp::Play(x) if *x == t) || matches!(o, KOp::Add(p, _, _) if *p == t)) {
+								ops.push(KOp::Drop(t));
+							}
+						}
+						_ => {}
+					}
+				}
+			}
+			// apply
+			let mut done: Vec<KOp> = vec![];
+			for o in ops {
+				match &o {
+					KOp::Add(p, id, persist) => {
+						if *id != nodes.len() {
+							continue;
+						}
+						let bld = TrackBuilder::new().persist_until_sounds_finish(*persist);
+						let h = if *p == 0 {
+							mgr.add_sub_track(bld).ok()
+						} else {
+							match nodes[*p].h.as_mut() {
+								Some(ph) => ph.add_sub_track(bld).ok(),
+								None => None,
+							}
+						};
+						let Some(h) = h else { continue };
+						nodes.push(KNode { parent: *p, persist: *persist, h: Some(h), snds: vec![], present: true });
+					}
+					KOp::Play(t) => {
+						let total: usize = nodes.iter().map(|n| n.snds.len()).sum();
+						if total >= 10 {
+							continue;
+						}
+						let Some(h) = nodes[*t].h.as_mut() else { continue };
+						let log: Log = Arc::default();
+						let d = SndData(SndProbe { id: 1 + (total as u64 % 12), pos: 0, log: log.clone(), stop: Arc::new(AtomicBool::new(false)), dirty: Arc::new(AtomicBool::new(false)) });
+						if h.play(d).is_err() {
+							continue;
+						}
+						nodes[*t].snds.push(log);
+					}
+					KOp::Drop(t) => {
+						if nodes[*t].h.take().is_none() {
+							continue;
+						}
+					}
+				}
+				done.push(o);
+			}
+			// the documented rules: a track stays while anything at or below it has a reason to stay
+			let nn = nodes.len();
+			let mut anchored = vec![false; nn];
+			for j in (1..nn).rev() {
+				let own = nodes[j].h.is_some() || (nodes[j].persist && !nodes[j].snds.is_empty());
+				if own || anchored[j] {
+					anchored[j] = true;
+					let p = nodes[j].parent;
+					anchored[p] = true;
+				}
+			}
+			anchored[0] = true;
+			for j in 1..nn {
+				// (parents have smaller numbers than their children)
+				let p = nodes[j].parent;
+				nodes[j].present = nodes[j].present && nodes[p].present && anchored[j];
+			}
+			let marks: Vec<Vec<usize>> = nodes.iter().map(|n| n.snds.iter().map(len).collect()).collect();
+			let n_frames = *r.pick(&[1usize, 2, 5]);
+			mgr.backend_mut().callback(n_frames, 2);
+			let want: Vec<usize> = chunk_sizes(b, n_frames);
+			let mut rendered = 0i128;
+			for (j, n) in nodes.iter().enumerate() {
+				for (q, l) in n.snds.iter().enumerate() {
+					let got = l.lock().unwrap()[marks[j][q]..].to_vec();
+					if !got.is_empty() {
+						rendered += 1;
+					}
+					if failure.is_none() {
+						if n.present && got != want {
+							failure = Some(format!("round {round}: a sound on track {j} was asked for slices {got:?} in this callback, expected {want:?}: the branch still has a reason to stay (a live handle at or below it, or a persisting track with a sound), so nothing of it may be lost"));
+						}
+						if !n.present && !got.is_empty() {
+							failure = Some(format!("round {round}: a sound on track {j} is still rendered although nothing at or below the track has a reason to stay"));
+						}
+					}
+				}
+			}
+			obs.push(rendered);
+			rounds.push(done);
+		}
+		let term = format!(
+			"CKeep [{}]",
+			rounds
+				.iter()
+				.map(|ops| {
+					format!(
+						"[{}]",
+						ops.iter()
+							.map(|o| match o {
+								KOp::Add(p, id, pe) => format!("RKAdd {} {} {}", p, id, *pe as u8),
+								KOp::Play(t) => format!("RKPlay {}", t),
+								KOp::Drop(t) => format!("RKDrop {}", t),
+							})
+							.collect::<Vec<_>>()
+							.join("; ")
+					)
+				})
+				.collect::<Vec<_>>()
+				.join("; ")
+		);
+		let nontrivial = rounds.iter().flatten().any(|o| matches!(o, KOp::Drop(_)));
+		s.case("keep_history", term.clone(), &obs, if nontrivial { Some(key_of(&term)) } else { None });
+		if let Some(f) = failure {
+			s.fail(format!("internal buffer {b}; tracks are numbered in creation order, 0 is the mixer; one callback after every round of handle operations: {term}"), f, None);
+		}
+	}
+}
+
 pub fn run(args: &Args) {
 	let mut rng = Rng::new(args.seed ^ 0xC02);
 	let n: u64 = (if args.thorough { 6000 } else { 700 }) * args.budget_mul;
 	let mut s = Session::new(
 		"C02",
 		&args.out,
-		"From Coq Require Import ZArith List. Import ListNotations. Open Scope Z_scope.\nFrom KV Require Import Base.Corr C02.Run.",
+		"From Coq Require Import ZArith List. Import ListNotations. Open Scope Z_scope.\nFrom KV Require Import Base.Corr C06.Run C02.Run.",
 		"run",
 		120,
-		"one case = one segment of device callbacks (no command in flight) rendered by a real AudioManager on a random track tree (depth <= 4, <= 9 tracks, <= 12 probe sounds, <= 2 send tracks, probe effects, pauses, mutes, stale routes) reached through a random add/remove/pause history; observable = device buffer + call log of every probe; distinct = distinct scene/partition text with at least one sub-track and one sound",
+		"one case = one segment of device callbacks (no command in flight) rendered by a real AudioManager on a random track tree (depth <= 4, <= 9 tracks, <= 12 probe sounds, <= 2 send tracks, probe effects, pauses, mutes, stale routes) reached through a random add/remove/pause history; observable = device buffer + call log of every probe; distinct = distinct scene/partition text with at least one sub-track and one sound; ctl_* cases = a fixed small tree (<= 3 sub-tracks, <= 2 sends) driven through 4-14 callbacks with pause / resume / resume_at(delayed, clock) / set_volume / set_send commands (tweens of 0..24 frames, Linear / Powi, delayed starts) written before or in the middle of callbacks, observable = device buffer bit patterns + sub-track states per callback + call logs; keep_history = rounds of add_sub_track / play / drop(handle) on nested (persisting) tracks, observable = number of sounds rendered per callback",
 	);
 
 	// ---- minimal scenes first: the classic mutants each fail one of them
@@ -1086,6 +2146,9 @@ pub fn run(args: &Args) {
 		}
 	}
 	pickup_order_scenarios(&mut s);
+	let n_ctl: u64 = (if args.thorough { 900 } else { 90 }) * args.budget_mul;
+	ctl_scenarios(&mut s, &mut rng, n_ctl);
+	keep_scenarios(&mut s, &mut rng, n_ctl * 4);
 	s.notes.push("probe values are dyadic: every mixer float operation is exact, so the model runs on integers scaled by 2^24 (Run.v header)".into());
 	s.finish();
 }
